@@ -99,6 +99,12 @@ DocImplAgreeStrict == Done => \A o \in ImplOuts : o = DocOut
 EnterSound ==
   Done => \A o \in ImplOuts : o.kind = "run" => Applicable(W, MethById(o.m), call)
 
+(* C06: a method that is not applicable to the call is irrelevant to it *)
+IrrelevantFree ==
+  Done => \/ KF
+          \/ \A x \in M : ~Applicable(W, x, call) =>
+                ImplOutcomes(W, M \ {x}, call) = ImplOuts
+
 NextMatches(d, o) ==
   \/ d = o
   \/ d.kind = "anyerror" /\ o.kind \in {"ambiguous", "nomethod"}
